@@ -154,6 +154,11 @@ def setup(opts):
             wc.end(w)
         return v
     rmod.time = vtime
+    # ... and wherever else the package reaches time.time: the function bound under another name, or the `time` module itself
+    # (`import time`, `import time as _time`) - by identity, not by attribute name
+    import patchall
+    import time as _real_time
+    patchall.patch_attr(_real_time, "time", vtime, prefix="taskiq.receiver")
 
     orig_pl = tmsg.TaskiqMessage.parse_labels
 
